@@ -395,9 +395,10 @@ func ruleStickyEnd(c *Ctx, r *R) {
 	// runsInnerIterator: parent cleared when the run ends
 	if fn := c.fn("iterator.runsInnerIterator.Next"); fn != nil {
 		cleared := false
+		att := attachmentField(fn)
 		instrs(fn, func(b *ssa.BasicBlock, i int, in ssa.Instruction) {
 			if st, ok := in.(*ssa.Store); ok {
-				if _, fld, ok := storedField(st.Addr); ok && fld == "parent" && isNilConst(st.Val) {
+				if _, fld, ok := storedField(st.Addr); ok && fld == att && isNilConst(st.Val) {
 					cleared = true
 				}
 			}
